@@ -20,7 +20,7 @@ ASSUMPTIONS = ["the write log is emitted by the scripted source right before it 
                "g++-12 -O1 build of the working tree with harness-side shims"]
 FLOORS = {"dynamic_list_element_invalidations": {"quick": 8, "thorough": 150}, "endpoint_checks": {"quick": 80000, "thorough": 1200000}, "quiet_cycle_checks": {"quick": 20000, "thorough": 300000},
           "invalidations": {"quick": 20, "thorough": 300}, "probe_pairs_agree": {"quick": 5000, "thorough": 80000},
-          "window_clears": {"quick": 30, "thorough": 500}}
+          "window_clears": {"quick": 20, "thorough": 500}}
 BATCH = 15
 
 
